@@ -300,8 +300,7 @@ def correspondence(ctx, obs, max_n_q, max_goals):
         else:
             rep = single_input(o) if o["kind"] == "single" else {"setup1": o["setup1"], "setup2": o["setup2"], "n": o["n"]}
         if (what in ("rates", "pyth") and len(flags) != 3) or (what == "purity" and len(flags) != 4):
-            ctx.case_failures.append({"case": cid})
-            ctx.violation("S4", f"model evaluation failed for case {cid} ({what}, n={o['n']})", {"kind": "model_eval"}, dict(rep, output=txt[:400]), found_input=False)
+            unchecked_eval(ctx, "C10", cid)     # no output (time limit / crash): an unchecked obligation, not a disagreement
             continue
         if all(f == "true" for f in flags):
             ctx.cov["discharged"] += 1
@@ -328,6 +327,23 @@ def correspondence(ctx, obs, max_n_q, max_goals):
                       {"kind": "value", "channel": k}, {"case": cid, "kind": o["kind"], "tau": fl(o["taus"][1])}, found_input=False)
 
 
+def unchecked_eval(ctx, name, cid):
+    """a vm_compute evaluation that printed no result: counted as an unchecked obligation (like vlib's no-verdict goals)"""
+    ctx.cov["unchecked_cases"] = ctx.cov.get("unchecked_cases", 0) + 1
+    tag = (f"Cases/{name}", "no-verdict")
+    for i, f in enumerate(ctx.proof_failures):
+        if (f[0], f[1]) == tag:
+            ctx.proof_failures[i] = (f[0], f[1], f[2] + f", {cid}")
+            return
+    ctx.proof_failures.append((tag[0], tag[1], f"model evaluation(s) without output from coqc (time limit): {cid}"))
+
+
+def unknown_failing(ctx):
+    """a concrete failing input that is NOT a known finding (a known finding firing on the same run must not stop the search)"""
+    fs = load_findings()
+    return any(v["found_input"] and match_finding(v, fs, ctx.prop) is None for v in ctx.violations)
+
+
 def run(ctx):
     binp = build_harness(ctx)
     msgs, spans = regen(ctx, ["hom", "pm_integrand"])
@@ -351,12 +367,12 @@ def run(ctx):
         correspondence(ctx, obs, 4 if quick else 6, 3 if quick else 12)
     else:
         ctx.note("correspondence skipped: Model/Hom2.v did not compile")
-    if (not proved or ctx.case_failures) and not any(v["found_input"] for v in ctx.violations):
+    if (not proved or ctx.case_failures) and not unknown_failing(ctx):
         ctx.log("S5 deep search for a failing input (obligations broken or model/implementation disagree)")
         for k in range(3):
             obs2 = run_harness(ctx, binp, ["c10", ctx.seed + 7919 * (k + 1), 64, 8, 0])
             oracle(ctx, obs2, 0)
-            if any(v["found_input"] for v in ctx.violations):
+            if unknown_failing(ctx):
                 break
     ctx.cov["rule"] = ("setup level: 4 configurations x 4 kinds of axes (identical; each beam's own centre with different widths; the setup's optimum range; "
                        "off-centre unequal) x sides 2..max x delays {0, two random}; each observation carries the eight jsa_range grids of the regions "
